@@ -97,6 +97,12 @@ def run(rep, tier):
             for o in op.slice_back_op(a):
                 if o[0] == "create":
                     exc.add(o[1].cid)
+                elif o[0] == "call":
+                    # `tokio::spawn(open_detached(db.clone(), name))`: the spawned future is the body of a named async fn
+                    tgt = prog.fns.get(o[1].rid) or prog.fns.get(o[1].cid)
+                    if tgt is not None and tgt.crate == SRV and prog.async_body(tgt) is not None:
+                        exc.add(tgt.id)
+                        exc.add(prog.async_body(tgt).id)
     inside = False
     for cid in exc:
         k = prog.fns.get(cid)
